@@ -333,5 +333,8 @@ pub fn run(ctx: &Ctx) -> &'static str {
         || strategy(mo),
         |_| check,
     );
+    if ctx.tier == crate::rt::Tier::Thorough {
+        crate::fuzzrun::campaign(ctx, "c09_uplink", 300);
+    }
     "exploration"
 }
